@@ -191,6 +191,22 @@ Theorem C08_cache_identity : forall (A : Type) (build : key -> res A) ks k1 k2 i
 Proof. exact @cache_identity_lemma. Qed.
 Print Assumptions C08_cache_identity.
 
+(* histories of calls on one BubblePoint / DewPoint pair: the k-th result is what the same call gives on its own,
+   the same call made twice gives the same result, and appending calls does not change earlier results.
+   (In the model the package functions gam / phi / pcf / Psat are pure; that the real Gamma / Phi / PCF objects are
+   pure, agree with Gamma.f/Gamma.args and are permuted with the chemical list is measured by oracle().) *)
+Theorem C08_history_independent : forall k S cs i d,
+  nth i (run_calls k S cs) (exec_call k S d) = exec_call k S (nth i cs d).
+Proof. exact history_independent_lemma. Qed.
+Print Assumptions C08_history_independent.
+Theorem C08_repeat_call : forall k S cs i j d, nth i cs d = nth j cs d ->
+  nth i (run_calls k S cs) (exec_call k S d) = nth j (run_calls k S cs) (exec_call k S d).
+Proof. exact repeat_call_lemma. Qed.
+Print Assumptions C08_repeat_call.
+Theorem C08_history_prefix : forall k S a b, run_calls k S (a ++ b) = run_calls k S a ++ run_calls k S b.
+Proof. exact run_calls_app. Qed.
+Print Assumptions C08_history_prefix.
+
 (* the residual kernels and the composition arguments, as translated from the current source of /repo by
    tr/C08_kernels.py (regenerated on every run), are the functions the theorems above are about *)
 Theorem C08_generated_kernels_agree :
